@@ -349,10 +349,10 @@ pub fn run(args: &Args, rep: &mut Report) {
     let mut rng = Rng::derive(seed, 0xC09, shard);
     let mut job: u64 = 0;
     let cfgs = [
-        VolCfg { fat: 12, bps: 512, spc: 1, nfats: 2, root_entries: 32, clusters: 120, extra: 0, garbage: false, slack: 0 },
-        VolCfg { fat: 16, bps: 512, spc: 2, nfats: 2, root_entries: 64, clusters: 4200, extra: 0, garbage: false, slack: 0 },
-        VolCfg { fat: 32, bps: 512, spc: 1, nfats: 2, root_entries: 0, clusters: 65600, extra: 0, garbage: false, slack: 0 },
-        VolCfg { fat: 12, bps: 1024, spc: 4, nfats: 1, root_entries: 32, clusters: 300, extra: 0, garbage: false, slack: 0 },
+        VolCfg { fat: 12, bps: 512, spc: 1, nfats: 2, root_entries: 32, clusters: 120, extra: 0, garbage: false, slack: 0, used_device: false },
+        VolCfg { fat: 16, bps: 512, spc: 2, nfats: 2, root_entries: 64, clusters: 4200, extra: 0, garbage: false, slack: 0, used_device: false },
+        VolCfg { fat: 32, bps: 512, spc: 1, nfats: 2, root_entries: 0, clusters: 65600, extra: 0, garbage: false, slack: 0, used_device: false },
+        VolCfg { fat: 12, bps: 1024, spc: 4, nfats: 1, root_entries: 32, clusters: 300, extra: 0, garbage: false, slack: 0, used_device: false },
     ];
     for vc in cfgs.iter() {
         let Ok((img, _)) = make_volume(vc) else {
